@@ -124,6 +124,16 @@ def run(ctx):
             sweep.append((name, {'t': 'writeRegister', 'address': 1, 'value': u * 257 % 65536}, u, (u * 259) % 65536, 0))
     check_batch(ctx, rep, 'req', sweep)
     check_batch(ctx, rep, 'resp', sweep)
+    # the largest legal frames (PDU 249..253 bytes) on every framing
+    for direction in ('req', 'resp'):
+        big = []
+        for m in msggen.max_size_msgs(rng, direction):
+            if not in_range(direction, m):
+                continue
+            for name in framelib.FRAMERS:
+                big.append((name, m, rng.choice([1, 17, 247]), rng.randrange(65536), 0))
+        check_batch(ctx, rep, direction, big)
+        rep.hist['max-size-messages:' + direction] += len(big)
     strings = [[], [0], [255], [0x7B], [0, 0], [255, 255]] + [[rng.randrange(256) for _ in range(rng.choice([1, 2, 3, 8, 64, 255, 300]))] for _ in range(ctx.scale(300, 3000))]
     if not ctx.quick:
         strings += [[a] for a in range(256)] + [[a, b] for a in range(256) for b in range(256)]
